@@ -29,7 +29,7 @@ type C15Case struct {
 	Defaulted bool                         `json:"defaulted"`
 	Pods      []*corev1.Pod                `json:"pods"`
 	Revs      []*appsv1.ControllerRevision `json:"revs"`
-	Steps     []int                        `json:"steps"` // 0 reconcile, 1 kubelet-all, 2 reconcile with permuted cache, 3 refresh
+	Steps     []int                        `json:"steps"` // 0 reconcile, 1 kubelet-all, 2 reconcile with permuted cache, 3 refresh, 4 the set is deleted with orphan propagation and re-created under its name
 }
 
 func (c C15Case) Summary() interface{} {
@@ -67,7 +67,11 @@ func genC15Set(rt *rapid.T) *asv1.StatefulSet {
 	s.Spec.RevisionHistoryLimit = &lim
 	s.Spec.ServiceName = rapid.SampledFrom([]string{"svc", ""}).Draw(rt, "svc")
 	// selector
-	switch rapid.IntRange(0, 6).Draw(rt, "selector") {
+	switch rapid.IntRange(0, 7).Draw(rt, "selector") {
+	case 7:
+		// selects the pods but none of the set's own revisions (they carry the hash label)
+		s.Spec.Selector = &metav1.LabelSelector{MatchLabels: map[string]string{"app": name},
+			MatchExpressions: []metav1.LabelSelectorRequirement{{Key: "controller.kubernetes.io/hash", Operator: metav1.LabelSelectorOpDoesNotExist}}}
 	case 0:
 		s.Spec.Selector = &metav1.LabelSelector{}
 	case 1:
@@ -263,7 +267,7 @@ func genC15(rt *rapid.T) C15Case {
 	c.Revs = genC15Revs(rt, c.Set)
 	n := rapid.IntRange(1, 8).Draw(rt, "nsteps")
 	for i := 0; i < n; i++ {
-		c.Steps = append(c.Steps, rapid.SampledFrom([]int{0, 0, 0, 1, 1, 2, 3}).Draw(rt, "step"))
+		c.Steps = append(c.Steps, rapid.SampledFrom([]int{0, 0, 0, 0, 1, 1, 2, 3, 4}).Draw(rt, "step"))
 	}
 	return c
 }
@@ -320,6 +324,41 @@ func runC15(rep Rep, c C15Case) {
 			cl.RefreshAll()
 		case 3:
 			cl.RefreshAll()
+		case 4:
+			old := cl.Set(NS, set.Name)
+			if old == nil {
+				continue
+			}
+			strip := func(refs []metav1.OwnerReference) []metav1.OwnerReference {
+				var out []metav1.OwnerReference
+				for _, r := range refs {
+					if r.UID != old.UID {
+						out = append(out, r)
+					}
+				}
+				return out
+			}
+			for _, p := range cl.PodsIn(NS) {
+				if len(strip(p.OwnerReferences)) != len(p.OwnerReferences) {
+					p.OwnerReferences = strip(p.OwnerReferences)
+					cl.Put(p)
+				}
+			}
+			for _, r := range cl.Revs() {
+				if len(strip(r.OwnerReferences)) != len(r.OwnerReferences) {
+					r.OwnerReferences = strip(r.OwnerReferences)
+					cl.Put(r)
+				}
+			}
+			cl.Remove(sim.GVRASts, NS, set.Name)
+			n := old.DeepCopy()
+			n.UID, n.ResourceVersion, n.Generation = "", "", 1
+			n.CreationTimestamp = metav1.Time{}
+			n.DeletionTimestamp = nil
+			n.Status = asv1.StatefulSetStatus{}
+			cl.Put(n)
+			cl.RefreshAll()
+			rep.Label("set-orphan-deleted-and-recreated")
 		}
 	}
 	rep.FP(worldFPAny(c))
